@@ -102,6 +102,14 @@ func checkC20() fw.Check {
 						c20Req{method: m, cap: cp, fault: "none", e2e: 1, queries: 2, maxTTL: 4, dist: 7})
 				}
 			}
+			// a TTL range of a single TTL (first = last = 1, the target one hop away): a path run like any other - the
+			// requested method applies to it, it is not an end-to-end probe
+			for _, m := range []string{"sack", "prefer_sack", "syn"} {
+				for _, cp := range []string{"sack-ok", "sack-ok-ts", "no-sackperm"} {
+					reqs = append(reqs, c20Req{method: m, cap: cp, fault: "none", e2e: 0, queries: 1, maxTTL: 1, dist: 1},
+						c20Req{method: m, cap: cp, fault: "none", e2e: 0, queries: 2, maxTTL: 1, dist: 1})
+				}
+			}
 			// a spelling variant of the protocol ("TCP"): whether it is accepted is C19's business; IF it is accepted, the
 			// method policy applies unchanged (end-to-end probes use SYN, ...)
 			for _, m := range []string{"sack", "prefer_sack", "syn"} {
@@ -307,7 +315,7 @@ func runC20(c *fw.Ctx, id string, rq c20Req) {
 	synTraceHandles, sackTraceHandles, e2eSynHandles, e2eOther := 0, 0, 0, 0
 	for h, m := range kinds {
 		fl := env.flows[h]
-		isE2e := fl != nil && fl.spec.MinTTL == fl.spec.MaxTTL
+		isE2e := fl != nil && fl.spec.MinTTL == fl.spec.MaxTTL && rq.e2e > 0
 		switch {
 		case isE2e && m["syn"] > 0 && m["sack"] == 0:
 			e2eSynHandles++
